@@ -12,10 +12,22 @@
 //!   status: `-` not started, `b` started but neither parked nor done (blocked), `h` parked at the hold
 //!   point (request written, reply not read), `d` returned.
 //!
-//! stress scenario:  `locks ep=.. ack=.. stress=<threads>x<calls> seed=<hex>`
+//!   reply fault (optional): `fault=<k>:<kind>` — the peer mistreats the request of thread `k` (identified by
+//!   its tag, which must be unique among `calls`; the request must be one that has a reply):
+//!   `code` = a reply of the right size whose request code is another (valid) one, `noreply` = the right
+//!   reply without the REPLY flag, `fd` = the right reply with an unexpected descriptor attached (only for
+//!   replies that take none), `close` = the peer shuts the socket down instead of answering and is gone.
+//!   "Right size" = what the reader consumes before it looks at the header: header + fixed body (for
+//!   GET_CONFIG the payload-less form a backend uses to signal failure), so the byte stream stays aligned for
+//!   the next caller.  In a fault scenario every result that is an error is printed as plain `err` (which
+//!   error a reader reports for which damage is not C10's business).
+//!
+//! stress scenario:  `locks ep=.. ack=.. stress=<threads>x<calls> seed=<hex> [only=<tag>,..] [fault=<tag>:<kind>]`
 //!   every thread performs `<calls>` calls drawn by a fixed LCG from the stress list of the endpoint and
 //!   compares each result with the reply the peer owes to *that* request; the peer additionally counts
 //!   requests that were already waiting in the socket while it still owed a reply (`early`).
+//!   with `fault=<tag>:<kind>` (kinds `code`, `noreply`, `fd`) *every* reply to a request with that tag is
+//!   faulty: those calls must return an error, all others their own reply as before.
 //!   observation: `calls=<n> ok=<per thread ok.err counts> bad=<n> early=<n> done=<n> reqs=<n>`
 //!
 //! The peer is a raw socket reader/writer with its own little-endian codec (12-byte header
@@ -643,12 +655,87 @@ fn send_with_fd(sock: &UnixStream, data: &[u8], fd: i32) -> bool {
     }
 }
 
+#[derive(Clone, Copy, PartialEq, Eq, Debug)]
+enum FaultKind {
+    Code,
+    NoReply,
+    Fd,
+    Close,
+}
+
+fn fault_kind(s: &str) -> FaultKind {
+    match s {
+        "code" => FaultKind::Code,
+        "noreply" => FaultKind::NoReply,
+        "fd" => FaultKind::Fd,
+        "close" => FaultKind::Close,
+        _ => panic!("unknown fault kind {s}"),
+    }
+}
+
+/// which request the peer mistreats: the next one (`once`) or every one with this tag
+struct Fault {
+    tag: String,
+    kind: FaultKind,
+    once: bool,
+}
+
 struct PeerShared {
     log: Mutex<Vec<String>>,
     idle: AtomicBool,
     stop: AtomicBool,
     early: AtomicU64,
     reply_ack: AtomicBool,
+    fault: Mutex<Option<Fault>>,
+}
+
+impl PeerShared {
+    /// the fault to apply to the reply of the request `tag`, if any
+    fn fault_for(&self, tag: &str) -> Option<FaultKind> {
+        let mut g = self.fault.lock().unwrap();
+        match g.as_ref() {
+            Some(f) if f.tag == tag => {
+                let k = f.kind;
+                if f.once {
+                    *g = None;
+                }
+                Some(k)
+            }
+            _ => None,
+        }
+    }
+}
+
+/// Turn the correct reply `r` (header + body, no descriptor marker) to a request with code `code` into a
+/// faulty one of the size the reader consumes.  Returns (bytes, attach a descriptor).
+fn mutate_reply(ep: &str, code: u32, mut r: Vec<u8>, had_fd: bool, kind: FaultKind) -> (Vec<u8>, bool) {
+    if ep == "fe" && code == 24 {
+        // GET_CONFIG: the reader takes header + VhostUserConfig (12 bytes) first and the payload only after
+        // it has accepted those; a refused reply must not leave payload bytes behind
+        r.truncate(12 + 12);
+        r[8..12].copy_from_slice(&12u32.to_le_bytes());
+    }
+    match kind {
+        FaultKind::Code => {
+            let other: u32 = match ep {
+                "fe" => if code == 1 { 15 } else { 1 },   // GET_FEATURES <-> GET_PROTOCOL_FEATURES
+                "be" => if code == 6 { 7 } else { 6 },    // SHARED_OBJECT_ADD <-> _REMOVE
+                _ => if code == 1 { 3 } else { 1 },       // GET_PROTOCOL_FEATURES <-> GET_DISPLAY_INFO
+            };
+            r[0..4].copy_from_slice(&other.to_le_bytes());
+            (r, had_fd)
+        }
+        FaultKind::NoReply => {
+            let f = le32(&r, 4) & !0x4;
+            r[4..8].copy_from_slice(&f.to_le_bytes());
+            (r, had_fd)
+        }
+        FaultKind::Fd => {
+            assert!(!had_fd, "fault kind fd on a reply that carries a descriptor anyway");
+            (r, true)
+        }
+        FaultKind::Close => unreachable!(),
+    }
 }
 
 /// (tag, reply bytes if a reply is owed) for a front-end channel request
@@ -829,7 +916,23 @@ fn peer_loop(mut sock: UnixStream, ep: String, sh: Arc<PeerShared>) {
             "be" => peer_reply_be(code, flags, &body),
             _ => peer_reply_gpu(code, &body),
         };
+        let fault = if reply.is_some() { sh.fault_for(&tag) } else { None };
         sh.log.lock().unwrap().push(tag);
+        if fault == Some(FaultKind::Close) {
+            // the peer goes away instead of answering
+            let _ = sock.shutdown(std::net::Shutdown::Both);
+            sh.idle.store(true, Ordering::SeqCst);
+            return;
+        }
+        let reply = match (reply, fault) {
+            (Some(r), Some(k)) => {
+                let had_fd = r.starts_with(&FD_MARK);
+                let raw = if had_fd { r[FD_MARK.len()..].to_vec() } else { r };
+                let (m, with) = mutate_reply(&ep, code, raw, had_fd, k);
+                Some(if with { with_fd(m) } else { m })
+            }
+            (r, _) => r,
+        };
         if let Some(r) = reply {
             // a request that is already waiting while this reply is still owed was written between
             // a request and the consumption of its reply
@@ -867,6 +970,7 @@ impl Session {
             stop: AtomicBool::new(false),
             early: AtomicU64::new(0),
             reply_ack: AtomicBool::new(false),
+            fault: Mutex::new(None),
         });
         let peer_ctl = b.try_clone().expect("clone");
         let peer_fd = peer_ctl.as_raw_fd();
@@ -1020,10 +1124,23 @@ fn snapshot(slots: &[Arc<Slot>]) -> String {
         .collect()
 }
 
-fn run_sched(epk: &str, ack: bool, calls: &[&str], sched: &[&str]) -> String {
+fn run_sched(epk: &str, ack: bool, calls: &[&str], sched: &[&str], fault: Option<(usize, FaultKind)>) -> String {
     let block = Duration::from_millis(env_ms("VERIF_LOCKS_WAIT_MS", 150));
     let watchdog = Duration::from_millis(env_ms("VERIF_LOCKS_WATCHDOG_MS", 3000));
     let sess = Session::new(epk, ack);
+    if let Some((k, kind)) = fault {
+        assert!(k < calls.len(), "fault refers to a thread that does not exist");
+        assert!(
+            calls.iter().filter(|c| **c == calls[k]).count() == 1,
+            "the faulted call must be unique among the calls"
+        );
+        // armed after the set-up requests of `Session::new`
+        *sess.sh.fault.lock().unwrap() = Some(Fault {
+            tag: calls[k].to_string(),
+            kind,
+            once: true,
+        });
+    }
     let slots: Vec<Arc<Slot>> = calls.iter().map(|_| Slot::new()).collect();
     let mut snaps: Vec<String> = Vec::new();
     for ev in sched {
@@ -1054,6 +1171,7 @@ fn run_sched(epk: &str, ack: bool, calls: &[&str], sched: &[&str]) -> String {
     let got: Vec<String> = slots
         .iter()
         .map(|s| s.st.lock().unwrap().result.clone().unwrap_or_else(|| "none".into()))
+        .map(|r| if fault.is_some() && r.starts_with("err") { "err".to_string() } else { r })
         .collect();
     let done: String = slots
         .iter()
@@ -1090,7 +1208,15 @@ fn lcg(x: u64) -> u64 {
         .wrapping_add(1442695040888963407)
 }
 
-fn run_stress(epk: &str, ack: bool, threads: usize, per: usize, seed: u64, only: Option<&str>) -> String {
+fn run_stress(
+    epk: &str,
+    ack: bool,
+    threads: usize,
+    per: usize,
+    seed: u64,
+    only: Option<&str>,
+    fault: Option<(&str, FaultKind)>,
+) -> String {
     let full: &'static [&'static str] = match epk {
         "fe" => STRESS_FE,
         "be" => STRESS_BE,
@@ -1102,6 +1228,15 @@ fn run_stress(epk: &str, ack: bool, threads: usize, per: usize, seed: u64, only:
     };
     let list = Arc::new(list);
     let sess = Session::new(epk, ack);
+    let ftag: Option<String> = fault.map(|(t, _)| t.to_string());
+    if let Some((t, kind)) = fault {
+        assert!(kind != FaultKind::Close, "fault kind close is not for the stress mode");
+        *sess.sh.fault.lock().unwrap() = Some(Fault {
+            tag: t.to_string(),
+            kind,
+            once: false,
+        });
+    }
     let results: Vec<Arc<Mutex<Option<(u64, u64, u64)>>>> =
         (0..threads).map(|_| Arc::new(Mutex::new(None))).collect();
     let start = Arc::new(std::sync::Barrier::new(threads));
@@ -1111,6 +1246,7 @@ fn run_stress(epk: &str, ack: bool, threads: usize, per: usize, seed: u64, only:
         let epk = epk.to_string();
         let start = start.clone();
         let list = list.clone();
+        let ftag = ftag.clone();
         std::thread::spawn(move || {
             let mut x = seed.wrapping_mul(0x9E37_79B9_7F4A_7C15).wrapping_add(t as u64);
             let (mut ok, mut err, mut bad) = (0u64, 0u64, 0u64);
@@ -1120,7 +1256,12 @@ fn run_stress(epk: &str, ack: bool, threads: usize, per: usize, seed: u64, only:
                 let tag = list[((x >> 33) % list.len() as u64) as usize].as_str();
                 let r = std::panic::catch_unwind(std::panic::AssertUnwindSafe(|| do_call(&ep, tag)))
                     .unwrap_or_else(|_| "panic".into());
-                if r != expected(&epk, ack, tag) {
+                if ftag.as_deref() == Some(tag) {
+                    // every reply to this request is faulty: an error, never a value
+                    if !r.starts_with("err") {
+                        bad += 1;
+                    }
+                } else if r != expected(&epk, ack, tag) {
                     bad += 1;
                 }
                 if r.starts_with("ok") {
@@ -1177,7 +1318,11 @@ pub fn run(line: &str) -> String {
         let threads: usize = it.next().unwrap().parse().expect("threads");
         let per: usize = it.next().unwrap().parse().expect("calls per thread");
         let seed = u64::from_str_radix(kv(&toks, "seed").unwrap_or("1"), 16).expect("seed");
-        return run_stress(epk, ack, threads, per, seed, kv(&toks, "only"));
+        let fault = kv(&toks, "fault").map(|f| {
+            let (t, k) = f.split_once(':').expect("fault=<tag>:<kind>");
+            (t, fault_kind(k))
+        });
+        return run_stress(epk, ack, threads, per, seed, kv(&toks, "only"), fault);
     }
     let calls: Vec<&str> = kv(&toks, "calls").expect("calls=").split(',').collect();
     let sched: Vec<&str> = kv(&toks, "sched")
@@ -1185,5 +1330,9 @@ pub fn run(line: &str) -> String {
         .split(',')
         .filter(|s| !s.is_empty() && *s != "-")
         .collect();
-    run_sched(epk, ack, &calls, &sched)
+    let fault = kv(&toks, "fault").map(|f| {
+        let (k, kind) = f.split_once(':').expect("fault=<k>:<kind>");
+        (k.parse::<usize>().expect("fault thread index"), fault_kind(kind))
+    });
+    run_sched(epk, ack, &calls, &sched, fault)
 }
